@@ -196,10 +196,14 @@ def _clobbers(stmts: list[ast.stmt], rhs: ast.expr) -> bool:
         """x.__class__, x.__class__.__name__ : the class of an object (and its name) does not change."""
         return isinstance(n, ast.Attribute) and (n.attr == "__class__" or (n.attr in ("__name__", "__qualname__") and isinstance(n.value, ast.Attribute) and n.value.attr == "__class__"))
 
-    attr_bases = {norm(n.value) for n in ast.walk(rhs) if isinstance(n, (ast.Attribute, ast.Subscript)) and not stable(n)}
+    attr_bases = {norm(n.value) for n in ast.walk(rhs) if isinstance(n, (ast.Attribute, ast.Subscript)) and not stable(n) and not isinstance(n.value, ast.Constant)}
     getattr_bases = {norm(n.args[0]) for n in ast.walk(rhs) if isinstance(n, ast.Call) and dotted(n.func) in ("getattr", "hasattr") and n.args}
     # anything read through an object (attribute, item, call result) may be changed by a call of unknown effect
-    reads_heap = bool(attr_bases or getattr_bases) or any(isinstance(n, ast.Call) for n in ast.walk(rhs))
+    # ("lit".join((a, b)) / "lit".format(a) on a literal receiver read nothing but their operands)
+    reads_heap = bool(attr_bases or getattr_bases) or any(
+        isinstance(n, ast.Call) and not (isinstance(n.func, ast.Attribute) and isinstance(n.func.value, ast.Constant) and n.func.attr in ("join", "format")
+                                         and all(isinstance(a_, (ast.Tuple, ast.List, ast.Constant, ast.JoinedStr, ast.Attribute, ast.Name)) for a_ in n.args))
+        for n in ast.walk(rhs))
     for st in stmts:
         for n in ast.walk(st):
             if isinstance(n, ast.Name) and isinstance(n.ctx, (ast.Store, ast.Del)) and n.id in read_names:
@@ -1325,6 +1329,37 @@ def _bind_pattern(target: ast.expr, value: ast.expr) -> dict[str, ast.expr] | No
     return None
 
 
+def _keyerror_probe(st: ast.Try) -> list[ast.stmt] | None:
+    if st.finalbody or len(st.handlers) != 1 or len(st.body) != 1:
+        return None
+    h = st.handlers[0]
+    if h.type is None or dotted(h.type) != "KeyError" or h.name is not None:
+        return None
+    one = st.body[0]
+    if not isinstance(one, (ast.Return, ast.Assign)) or one.value is None:
+        return None
+    if isinstance(one, ast.Assign) and not all(isinstance(t, ast.Name) for t in one.targets):
+        return None
+    subs = [n for n in ast.walk(one.value) if isinstance(n, ast.Subscript)]
+    if len(subs) != 1 or any(isinstance(n, (ast.Call, ast.Await, ast.Yield, ast.YieldFrom, ast.NamedExpr)) for n in ast.walk(one.value)):
+        return None
+    d_, k_ = subs[0].value, subs[0].slice
+    if not (dotted(d_) is not None and (isinstance(k_, (ast.Name, ast.Constant)) or dotted(k_) is not None)):
+        return None
+    test = ast.Compare(left=copy.deepcopy(k_), ops=[ast.In()], comparators=[copy.deepcopy(d_)])
+    hbody = [s_ for s_ in h.body if not isinstance(s_, ast.Pass)]
+    if isinstance(one, ast.Return):
+        if st.orelse:
+            return None
+        new: list[ast.stmt] = [ast.If(test=test, body=[one], orelse=[])] + hbody
+    else:
+        new = [ast.If(test=test, body=[one] + list(st.orelse), orelse=hbody)]
+    for n_ in new:
+        ast.copy_location(n_, st)
+        ast.fix_missing_locations(n_)
+    return new
+
+
 _TI_COUNTER = [0]
 
 
@@ -1485,6 +1520,9 @@ def lower(fn: ast.FunctionDef, tuples: bool = True, ifexp: bool = True) -> ast.F
                     c.value.args = [v]  # type: ignore[attr-defined]
                     return c
                 new = [ast.copy_location(ast.If(test=ife.test, body=[mkc(ife.body)], orelse=[mkc(ife.orelse)]), st)]
+            elif tuples and isinstance(st, ast.Try) and _keyerror_probe(st) is not None:
+                # try: <use D[K]> except KeyError: H   ->   if K in D: <use D[K]> else: H     (nothing else in the statement can raise KeyError)
+                new = _keyerror_probe(st)
             elif tuples and isinstance(st, ast.For) and _traversal_unpack(st) is not None:
                 # for node, parent, field, index in x.dfs():  ->  for _ti in x.dfs(): (node -> _ti.node, ...)
                 new = [_traversal_unpack(st)]  # type: ignore[list-item]
@@ -1730,6 +1768,13 @@ class _Canon(ast.NodeTransformer):
     # ---- `A if A else B` is `A or B` (A pure: evaluated once or twice makes no difference)
     def visit_IfExp(self, node: ast.IfExp) -> ast.AST:
         self.generic_visit(node)
+        if isinstance(node.test, ast.Constant):  # a constant condition (an inlined helper called with a literal)
+            return node.body if node.test.value else node.orelse
+        if isinstance(node.body, ast.Call) and isinstance(node.body.func, ast.Name) and node.body.func.id == "str" and len(node.body.args) == 1 \
+                and not node.body.keywords and is_pure_expr(node.test) and ast.dump(node.body.args[0]) == ast.dump(node.test) \
+                and isinstance(node.orelse, ast.Constant) and isinstance(node.orelse.value, str):
+            # str(A) if A else "c"  ==  str(A or "c")
+            return ast.copy_location(ast.Call(func=ast.Name(id="str", ctx=ast.Load()), args=[ast.BoolOp(op=ast.Or(), values=[node.test, node.orelse])], keywords=[]), node)
         if is_pure_expr(node.test) and ast.dump(node.test) == ast.dump(node.body):
             return ast.copy_location(ast.BoolOp(op=ast.Or(), values=[node.body, node.orelse]), node)
         if isinstance(node.test, ast.UnaryOp) and isinstance(node.test.op, ast.Not) and is_pure_expr(node.test.operand) \
@@ -2053,6 +2098,7 @@ class _Strings(ast.NodeTransformer):
     """The string spellings of _Canon only (run again after locals were substituted)."""
     visit_JoinedStr = _Canon.visit_JoinedStr
     visit_BinOp = _Canon.visit_BinOp
+    visit_IfExp = _Canon.visit_IfExp
     _fuse = _Canon._fuse
     visit_GeneratorExp = _Canon._fuse
     visit_ListComp = _Canon._fuse
